@@ -32,7 +32,7 @@ RULE = (
     "quantile/bc/bca; scalar or vector alpha) with 0-3 planned faults (callback NaN/raise/re-enter/RNG use on the k-th call, "
     "forced draws, interference, line-event interrupt) plus reseeds. Non-trivial: every run (each has >= 1 bootstrap loop); "
     "distinct = distinct abstract trace signatures (op, metric, sampler class, method, faults fired, outcome class)."
-    "Later rounds added: exception types for failing callbacks, re-entrant double bootstrap, mixed-identity / recycling / unhashable samplers, callable sampler x stratification flag, "
+     " Later rounds added: exception types for failing callbacks, re-entrant double bootstrap, mixed-identity / recycling / unhashable samplers, callable sampler x stratification flag, "
     "user subclasses (own metric, overridden metric), sources on a large offset, skewed / infinite / tuple- and list-valued / type-varying metrics, alpha from 1e-12 to 0.99, runaway guard."
 )
 COMPONENTS = {
